@@ -192,7 +192,14 @@ class C18Gen:
             k = r.range(2, nrows - 2)
             groups = [rows[:k], rows[k:]]
         # tags of the frame members
-        idbase = {"int": ("i", tagnum("UNIVERSAL", 2), None, None, False), "enum": ("i", tagnum("UNIVERSAL", 10), None, None, False),
+        # a range constraint on the identifier field changes the C type of the identifier member (long / unsigned long) and its PER encoding
+        idcon = None
+        if idkind == "int" and r.chance(1, 3):
+            fits = [c for c in [(0, 255), (0, 32767), (0, 65535), (-128, 127), (-32768, 32767), (0, 4294967295), (-2147483648, 2147483647)]
+                    if all(c[0] <= x <= c[1] for x in ids)]
+            if fits:
+                idcon = r.choice(fits)
+        idbase = {"int": ("i", tagnum("UNIVERSAL", 2), idcon[0] if idcon else None, idcon[1] if idcon else None, False), "enum": ("i", tagnum("UNIVERSAL", 10), None, None, False),
                   "oid": ("o", tagnum("UNIVERSAL", 6), 0, None, False)}[idkind]
         nmem = len(mcols)
         idtag_text, open_tag_text, open_tags = "", [], []
@@ -225,10 +232,11 @@ class C18Gen:
             syntax = "{ ID &id TYPE &Type AUX &Aux }" if style == "A" else "{ &Type IDENTIFIED BY &id WITH &Aux }"
             obj = (lambda i, t: "{ ID %s TYPE %s AUX %s }" % (i, t[0], t[1])) if style == "A" else (lambda i, t: "{ %s IDENTIFIED BY %s WITH %s }" % (t[0], i, t[1]))
         idtype = {"int": "INTEGER", "oid": "OBJECT IDENTIFIER", "enum": "Kind"}[idkind]
+        idfield = idtype + (" (%d..%d)" % idcon if idcon else "")
         lines = ["%s DEFINITIONS %s TAGS ::= BEGIN" % (name, default)]
         if idkind == "enum":
             lines.append("  Kind ::= ENUMERATED { %s }" % ", ".join("%s(%d)" % (enum_name(v), v) for v in r.shuffle(ids)))
-        lines.append("  MY-CLASS ::= CLASS { &id %s UNIQUE, &Type%s } WITH SYNTAX %s" % (idtype, ", &Aux" if ncols == 2 else "", syntax))
+        lines.append("  MY-CLASS ::= CLASS { &id %s UNIQUE, &Type%s } WITH SYNTAX %s" % (idfield, ", &Aux" if ncols == 2 else "", syntax))
         extra, gtexts = [], []
         n = 0
         for g in groups:
@@ -268,7 +276,7 @@ class C18Gen:
         lines.append("END")
         m = {"name": name, "default": default, "defs": [("Frame", None), ("Wrap", None)] + defs, "trees": trees, "text": "\n".join(lines) + "\n",
              "idkind": idkind, "idtree": idtree, "open_tags": open_tags, "groups": groups, "rows": rows, "ncols": ncols, "mcols": mcols,
-             "ext": ext, "lone": lone, "untagged": untagged, "simple": simple, "members": ["value", "aux" if not samecol else "value2"][:nmem]}
+             "ext": ext, "lone": lone, "untagged": untagged, "simple": simple, "idcon": idcon, "members": ["value", "aux" if not samecol else "value2"][:nmem]}
         return m
 
 
@@ -351,8 +359,8 @@ _VAL_RE = _re.compile(r"^static const ([A-Za-z_ ]+?) (asn_VAL_\w+) = (.*?);[ \t]
 _ROWS_RE = _re.compile(r"static const asn_ioc_cell_t (asn_IOS_\w+_rows)\[\] = \{(.*?)\n\};", _re.S)
 _CELL_RE = _re.compile(r'\{ "([^"]*)", (aioc__value|aioc__type), &asn_DEF_(\w+)(?:, &(asn_VAL_\w+))? \}')
 _SET_RE = _re.compile(r"static const asn_ioc_set_t (asn_IOS_\w+)\[\] = \{\s*(\d+), (\d+), (\w+)\s*\};")
-_SEL_RE = _re.compile(r"^select_(\w+?)_type\(.*?const asn_ioc_set_t \*itable = (\w+);\s*size_t constraining_column = (\d+);[^\n]*\n\s*size_t for_column = (\d+);",
-                      _re.S | _re.M)
+_SEL_RE = _re.compile(r"^select_(\w+?)_type\(.*?const asn_ioc_set_t \*itable = (\w+);\s*size_t constraining_column = (\d+);[^\n]*\n\s*size_t for_column = (\d+);"
+                      r".*?const ([A-Za-z_ ]+?) \*constraining_value = ", _re.S | _re.M)
 
 
 def c_string(lit):
@@ -429,6 +437,6 @@ def parse_ioc_tables(cfile):
              "cells": [cells[i * ncols:(i + 1) * ncols] for i in range(nrows)] if ncols and len(cells) == nrows * ncols else None}
         tables[name] = t
     sels = {}
-    for member, setname, ccol, fcol in _SEL_RE.findall(text):
-        sels[member] = (setname, int(ccol), int(fcol))
+    for member, setname, ccol, fcol, ctype in _SEL_RE.findall(text):
+        sels[member] = (setname, int(ccol), int(fcol), ctype.strip())
     return tables, sels
